@@ -58,7 +58,9 @@ def oracle(ctx, case, io):
         pre, post = o["pre"], o["post"]
         pol = case["conf"]
         gg = g[st["repo"]]
-        hist = lambda **kw: oracles.hist(case, k, None, policy={x: pol.get(x) for x in ("untagged", "dangling", "withsubj", "grace_ms")}, **kw)
+        # (the replay carries the probes after the collection: the oracle judges the collection by them)
+        kend = max([j for j, s_ in enumerate(case["steps"]) if tuple(s_.get("gcprobe") or ()) == ("post", st["gcid"])] + [k])
+        hist = lambda **kw: oracles.hist(case, kend, None, policy={x: pol.get(x) for x in ("untagged", "dangling", "withsubj", "grace_ms")}, **kw)
         lost = lambda d: pre["blob"].get(d) == 200 and post["blob"].get(d) != 200
         mlost = lambda d: d in pre["man"] and pre["man"][d][0] == 200 and post["man"].get(d, (None,))[0] != 200
         # tagged manifests and everything they reference, with the referrers of retained manifests
